@@ -240,6 +240,17 @@ def run(ctx):
                               expected=f'a term of sort {smtgen.render_shape(want)}', how_to_replay='./check C16 --replay <file>')
     ctx.count('subterms with unknown sort', unknown)
     ctx.count('typed subterms', sum(1 for m in meta if m[0] == 'generator'))
+    # logic-dependent numerals: in a logic with Reals only (QF_LRA, LRA, QF_NRA ...) a numeral denotes a Real
+    lra = '(set-logic QF_LRA)\n(declare-const x Real)\n(assert (<= x (- 5)))\n(assert (< (+ x 2) 7))\n(check-sat)\n'
+    ex_ = impl.parse(lra)
+    smtlib.collect_information(ex_)
+    for node in impl.nodes.dfs(ex_):
+        if node.is_leaf() and node.data.isdigit():
+            ctx.case(['numeral in QF_LRA', node.data], True)
+            so = smtlib.get_sort(node)
+            if so is not None and impl.to_shape(so) != 'Real':
+                ctx.violation('impl-violation', finding_key='F53-numerals-are-int-in-real-logics', input=lra, term=node.data,
+                              observed=f'get_sort = {impl.to_shape(so)}', expected='unknown or Real (the logic has no Ints)')
     ctx.assumptions += ['every declared/defined/bound symbol is bound exactly once (generator invariant)',
                         'the structural get_sort cache is not modelled; it is exercised because every subterm of a script is queried in one session']
 
